@@ -104,7 +104,10 @@ def call(runner, name: str):
             buf = io.StringIO()
             with no_preempt(), contextlib.redirect_stdout(buf):
                 runner.print_column_lineage()
-            return sorted(_rw(l) for l in buf.getvalue().splitlines())
+            lines = buf.getvalue().splitlines()
+            if STRICT_ORDER and not any(_SUBQ.search(l) for l in lines):
+                return lines
+            return sorted(_rw(l) for l in lines)
         raise ValueError(name)
     except Exception as e:  # library and dependency errors are part of the observable result
         return {"exception": type(e).__name__}
